@@ -2,7 +2,7 @@
     Only statements closed by [exact]; model: create_patches / compose_patch / sort_list of
     PatchDefs.v; specification: Rfc6902.v (ops_of, eval, doc_eqb / doc_eq). *)
 From CJ Require Import Base Dbl Tree PointerDefs CompareDefs PatchDefs Rfc6902
-  PatchProofs PatchRobust PatchConform PatchOps PatchApply PatchSort PatchTest PatchMove PatchSeq PatchGen PatchEq.
+  PatchProofs PatchRobust PatchConform PatchOps PatchApply PatchSort PatchTest PatchMove PatchSeq PatchGen PatchEq PatchRound PatchObj PatchRoundAll.
 Local Open Scope Z_scope.
 
 (** Termination for EVERY pair of trees and both case modes: create_patches gets the depth of 'from',
@@ -40,27 +40,23 @@ Theorem C17_create_patches : forall fuel ps path from to, (node_depth from <= fu
 Proof. exact create_patches_spec. Qed.
 Print Assumptions C17_create_patches.
 
-(** Round trip — PARTIAL: proved when the two documents have different types or are both scalars, i.e. when
-    the generated patch is empty or the single operation  replace "" <to>.  Then the patch decodes as an
-    RFC 6902 patch, its evaluation on 'from' succeeds with a document equal to 'to', the inputs are
-    returned untouched, and the patch is empty exactly when the documents are equal.
-    The full statement of DESIGN C17_roundtrip,
-      forall from to, dwf from -> dwf to -> exists patches f' t' ops d,
-        cJSONUtils_GeneratePatchesCaseSensitive from to = Ok (patches, f', t') /\
-        ops_of patches = Some ops /\ eval from ops = Some d /\ doc_eq d to,
-    for arrays and objects (paths built with sprintf "%lu" / encode_string_as_pointer, removals at a
-    fixed index, additions at "-", nested recursion on sorted members) is NOT proved; it is covered by
-    the correspondence run (the extracted [eval]/[ops_of]/[doc_eqb] are applied to every generated patch
-    of the model, SPECDIFF) and by the python RFC 6902 evaluator on the implementation's patches. *)
-Theorem C17_roundtrip_partial : forall from to, dwf from -> dwf to -> shallow to ->
-  (tymask (n_ty from) <> tymask (n_ty to) \/
-   (tymask (n_ty from) <> c_cJSON_Array /\ tymask (n_ty from) <> c_cJSON_Object)) ->
-  exists patches ops d,
-    cJSONUtils_GeneratePatchesCaseSensitive from to = Ok (patches, from, to) /\
-    ops_of patches = Some ops /\ eval from ops = Some d /\ doc_eq d to /\
-    (ops = [] <-> doc_eqb from to = true).
-Proof. exact roundtrip_root. Qed.
-Print Assumptions C17_roundtrip_partial.
+(** Round trip, for ALL well-formed documents (null, booleans, numbers, strings, arrays, objects with distinct
+    member names — including names containing '/' and '~' —, nested to any depth; 'to' no deeper than
+    CJSON_CIRCULAR_LIMIT so that cJSON_Duplicate succeeds): the generated array decodes as an RFC 6902 patch
+    ([ops_of]: every element an object with "op", "path" and, where required, "value"; paths built with
+    sprintf "%lu" and encode_string_as_pointer parse back to the intended reference tokens), and evaluating it
+    with the RFC 6902 evaluator on the ORIGINAL 'from' (members in their original order) succeeds with a
+    document equal to 'to' (arrays in order, objects as name/value sets).  Array tails are removed at the index
+    of the first surplus element, appended at "-"; object members are removed / added / descended into in the
+    sorted merge order.
+    (DESIGN also mentions the same through the model's own apply_patch: that needs C16 for operation
+    sequences, which is proved per operation only — see Properties_C16.v.) *)
+Theorem C17_roundtrip : forall from to, dwf from -> dwf to -> shallow to ->
+  exists patches f' t' ops d,
+    cJSONUtils_GeneratePatchesCaseSensitive from to = Ok (patches, f', t') /\
+    ops_of patches = Some ops /\ eval from ops = Some d /\ doc_eq d to.
+Proof. exact roundtrip_all. Qed.
+Print Assumptions C17_roundtrip.
 
 (** The pieces the generator relies on: sort_list returns a sorted permutation of the members (so the
     inputs keep their members), and sorted lists of distinct names list the names in one order only. *)
